@@ -188,6 +188,9 @@ pub fn dispatch(t: &[&str]) -> Option<Out> {
         },
         // kdf <z> <klen>
         "sm2_kdf" => Out::Ok(hx(&gm_sm2::util::kdf(&unhex(t[1]), t[2].parse().unwrap()))),
+        // sm2_kdf_block <z> <blk>: bytes 32*(blk-1) .. 32*blk of the key stream (the real code derives all 32*blk bytes), so that
+        // far-away counter values can be compared without shipping megabytes through the line protocol
+        "sm2_kdf_block" => { let b: usize = t[2].parse().unwrap(); let k = gm_sm2::util::kdf(&unhex(t[1]), 32 * b); Out::Ok(hx(&k[32 * (b - 1)..])) }
         // za <id|default> <pk bytes>
         "sm2_za" => {
             let pk = match Sm2PublicKey::new(&unhex(t[2])) { Ok(p) => p, Err(e) => return Some(Out::Err(errname(e))) };
@@ -346,6 +349,37 @@ pub fn dispatch(t: &[&str]) -> Option<Out> {
             res(sk.decrypt(&ct, t[3] == "1", model(t[4])), |m| hx(&m))
         }
         // sm2_rngstats <n> : un-hooked randomness; scalars observed through the recorder at every call site
+        // sm2_rngthreads <threads> <per-thread>: scalars drawn by several threads of one process must all differ
+        "sm2_rngthreads" => {
+            let nt: usize = t[1].parse().unwrap();
+            let per: usize = t[2].parse().unwrap();
+            let mut hs = vec![];
+            for _ in 0..nt {
+                hs.push(std::thread::spawn(move || {
+                    vh::clear();
+                    let mut v: Vec<U256> = vec![];
+                    let (pk0, sk0) = gm_sm2::key::gen_keypair().ok().unwrap();
+                    v.extend(vh::take_log());
+                    for i in 0..per {
+                        match i % 3 {
+                            0 => { let _ = gm_sm2::key::gen_keypair(); }
+                            1 => { let _ = sk0.sign(None, &[i as u8, 9]); }
+                            _ => { let _ = pk0.encrypt(&[1, 2, i as u8], false, Sm2Model::C1C3C2); }
+                        }
+                        v.extend(vh::take_log());
+                    }
+                    v
+                }));
+            }
+            let mut all: Vec<U256> = vec![];
+            vh::clear();
+            let _ = gm_sm2::key::gen_keypair();
+            all.extend(vh::take_log());
+            for h_ in hs { all.extend(h_.join().unwrap()); }
+            let total = all.len();
+            all.sort(); all.dedup();
+            Out::Ok(format!("drawn>={} distinct={}", (total >= nt * (per + 1)) as u8, (all.len() == total) as u8))
+        }
         "sm2_rngstats" => {
             let n: usize = t[1].parse().unwrap();
             vh::clear();
